@@ -513,7 +513,7 @@ def apply_subst(text, rules):
     return text
 
 
-def build_unit(overlay_path, base_root, repo_root, out_path, subst_tables=None):
+def build_unit(overlay_path, base_root, repo_root, out_path, subst_tables=None, spinoff=True):
     """returns a report dict; writes the Verus file to out_path"""
     counts = Counts()
     name = os.path.basename(overlay_path)
@@ -581,11 +581,41 @@ def build_unit(overlay_path, base_root, repo_root, out_path, subst_tables=None):
         if len([1 for _ in cur]) > len(emitted_code) + sum(len(ol.extra or []) for ol in region if ol.kind == 'arm') + len(cur):
             problems.append({'kind': 'fidelity', 'file': rel})
         i = j + 1
+    n_spin = 0
+    if spinoff:
+        out, origin, n_spin = add_spinoff(out, origin)
     with open(out_path, 'w') as f:
         f.write('\n'.join(out))
         f.write('\n')
     return {'overlay': name, 'out': out_path, 'files': files, 'transform_counts': dict(counts),
-            'problems': problems, 'origin': origin, 'lines': out}
+            'problems': problems, 'origin': origin, 'lines': out, 'spinoff_attrs': n_spin}
+
+
+_FNHEAD = re.compile(r'^(\s*)(?:pub(?:\([a-z]+\))? )?(?:(?:open|closed|uninterp|broadcast) )*(?:(spec|proof|exec) )?fn (\w+)')
+
+
+def add_spinoff(lines, origin):
+    """one z3 process per function (`#[verifier::spinoff_prover]` on every exec / proof fn with a body): results of
+    one function do not depend on edits elsewhere"""
+    out, org = [], []
+    trait_depth = None
+    depth = 0
+    n = 0
+    for t, o in zip(lines, origin):
+        code = re.sub(r'//.*$', '', t)
+        mo = _FNHEAD.match(t)
+        if mo and mo.group(2) != 'spec' and trait_depth is None and 'uninterp' not in t:
+            out.append(mo.group(1) + '#[verifier::spinoff_prover]')
+            org.append(('A', 'extract.py', 0))
+            n += 1
+        if re.match(r'^\s*(pub )?trait \w+', code) and '{' in code and trait_depth is None:
+            trait_depth = depth
+        depth += code.count('{') - code.count('}')
+        if trait_depth is not None and depth <= trait_depth:
+            trait_depth = None
+        out.append(t)
+        org.append(o)
+    return out, org, n
 
 
 def fn_table(lines):
